@@ -263,6 +263,11 @@ func subRequestTextV(fieldName, topic string, sels []model.Sel, form int) string
 		root = &model.Spread{Name: "Root"}
 	}
 	d.Ops = []*model.Op{{Kind: "subscription", Name: "S", Sels: []model.Sel{root}}}
+	if form == 6 && len(sels) > 0 {
+		// the stream's selection sits behind a named fragment; every request calls its fragment the same (Sel), the bodies differ
+		d.Frags = []*model.FragDef{{Name: "Sel", Cond: "Event", Sels: sels}}
+		d.Ops[0].Sels = []model.Sel{&model.Field{Name: fieldName, Args: []model.Arg{{Name: "topic", Value: topic}}, Sels: []model.Sel{&model.Spread{Name: "Sel"}}}}
+	}
 	if form == 4 || form == 5 {
 		// the topic comes from a variable: left to its default (4) or supplied over another default (5)
 		vd := &model.VarDef{Name: "t", Type: model.Named("String"), HasDefault: true, Default: topic}
@@ -408,7 +413,7 @@ func runC19(c *run.Ctx) {
 				ro.mu.Unlock()
 				form := 0
 				if r.Intn(4) == 0 {
-					form = 1 + r.Intn(5)
+					form = 1 + r.Intn(6)
 				}
 				var reqVars map[string]interface{}
 				if form == 5 {
